@@ -76,10 +76,52 @@ theorem rolloutTraj_get (n k : Nat) (g : G) (h : k < n) :
       rw [ih k (run U S g) (by omega)]
       simp only [Function.iterate_succ_apply]
 
+/-- finishing the supervisor after `reset(); step()ⁿ` is exactly `n + 1` `run()` calls: the two driving styles meet at
+every supervisor boundary, for every number of steps -/
+theorem reset_steps_supervisor_eq_runs (n : Nat) (g : G) :
+    S none ((step U S none)^[n] (reset U g)) = (run U S)^[n + 1] g := by
+  rw [reset_steps_eq_runs, Function.iterate_succ_apply']
+  rfl
+
+/-- `run()ᵐ` then `reset(); step()ⁿ` = `reset(); step()^(m+n)`: switching the driving API in the middle of an episode
+changes nothing -/
+theorem runs_then_reset_steps (m n : Nat) (g : G) :
+    (step U S none)^[n] (reset U ((run U S)^[m] g)) = (step U S none)^[m + n] (reset U g) := by
+  rw [reset_steps_eq_runs, reset_steps_eq_runs, Nat.add_comm, Function.iterate_add_apply]
+
+/-- a rollout of `m + n` runs is a rollout of `m` followed by a rollout of `n` from where the first ended -/
+theorem rollout_split (m n : Nat) (g : G) :
+    rolloutCarry U S (m + n) g = rolloutCarry U S n (rolloutCarry U S m g) := by
+  rw [rollout_eq_iter, rollout_eq_iter, rollout_eq_iter, Nat.add_comm, Function.iterate_add_apply]
+
+/-- the full trajectory of `m + n` runs is the trajectory of `m` runs followed by the trajectory of `n` runs from its end -/
+theorem rolloutTraj_append (m n : Nat) (g : G) :
+    rolloutTraj U S (m + n) g = rolloutTraj U S m g ++ rolloutTraj U S n ((run U S)^[m] g) := by
+  induction m generalizing g with
+  | zero => simp [rolloutTraj]
+  | succ m ih =>
+    rw [Nat.succ_add]
+    simp only [rolloutTraj, List.cons_append, Function.iterate_succ_apply]
+    rw [ih]
+
+/-- a vmapped batch is the pointwise rollout: element `i` of the batched result is the rollout of element `i` -/
+theorem vmap_rollout_pointwise (n : Nat) (gs : List G) (i : Nat) :
+    (gs.map (rolloutCarry U S n))[i]? = (gs[i]?).map (fun g => (run U S)^[n] g) := by
+  rw [List.getElem?_map]
+  congr 1
+  funext g
+  exact rollout_eq_iter U S n g
+
 /-- passing the supervisor's own step result to `step()` is the same as letting `step()` run it -/
 theorem override_eq_default (own : G → A) (hS : ∀ g, S (some (own g)) g = S none g) (g : G) :
     step U S (some (own g)) g = step U S none g := by
   simp [step, hS]
+
+/-- … at every step of an episode, not only the first -/
+theorem override_steps_eq_default (own : G → A) (hS : ∀ g, S (some (own g)) g = S none g) (n : Nat) (g : G) :
+    (fun g => step U S (some (own g)) g)^[n] g = (step U S none)^[n] g := by
+  have : (fun g => step U S (some (own g)) g) = step U S none := funext (override_eq_default U S own hS)
+  rw [this]
 
 end Algebra
 
